@@ -1,7 +1,7 @@
 (** Model of the BGP/ROA analyser of krill, function by function, as the code is
     (definitions only; proofs in [AnalyserProofs.v]).
 
-    Source: src/server/bgp/analyser.rs ([analyse] 133-234, [suggest] 241-315,
+    Source: src/server/bgp/analyser.rs ([analyse] 133-230, [suggest] 237-326,
     [split_roas] 355-367, [categorise_roa] 374-476, [Roa] 488-524,
     [validate_set] 547-572, [validate] 577-618, [into_analysis_entry] 628-659),
     src/api/bgp.rs (entry constructors 680-919, states 995-1010),
@@ -226,13 +226,15 @@ Definition categorise_roa (chk : bool) (r : croa) (validated : list vro) (all_ro
       are, range blocks through [to_v4_prefixes]/[to_v6_prefixes] of the rpki crate). *)
 Record resources := mkRes { rs_r4 : list (N * N); rs_r6 : list (N * N); rs_v4 : list prefix; rs_v6 : list prefix }.
 
-(** [ResourceSet::contains_roa_address] (rpki-0.19.2 set.rs:141-143, ipres.rs:410-418):
-    [ipv4.contains_roa(a) || ipv6.contains_roa(a)], each a range test on 128-bit values -
-    the address family of the ROA prefix is *not* consulted. *)
-Definition contains_roa_address (rs : resources) (pl : payload) : bool :=
+(** [RoaPayload::is_held_by] (src/api/roa.rs:81-91, introduced by the fix 2496aeb4 of candidate finding F17c):
+    the prefix is looked up among the blocks of its *own* address family only, with
+    [IpBlocks::contains_roa] (rpki-0.19.2 ipres.rs:410-418), a range test on the 128-bit view.
+    (Before the fix [ResourceSet::contains_roa_address] tested the IPv4 and the IPv6 blocks alike.) *)
+Definition is_held_by (pl : payload) (rs : resources) : bool :=
   let lo := min128 (pl_pfx pl) in
   let hi := max128 (pl_pfx pl) in
-  existsb (fun '(a, b) => (a <=? lo) && (hi <=? b)) (rs_r4 rs ++ rs_r6 rs).
+  existsb (fun '(a, b) => (a <=? lo) && (hi <=? b))
+          (match p_fam (pl_pfx pl) with V4 => rs_r4 rs | V6 => rs_r6 rs end).
 
 Definition is_fam (f : fam) (r : croa) : bool := fam_eqb (p_fam (r_pfx r)) f.
 
@@ -242,17 +244,17 @@ Fixpoint map_opt {A B} (f : A -> option B) (l : list A) : option (list B) :=
   | x :: r => match f x, map_opt f r with Some y, Some ys => Some (y :: ys) | _, _ => None end
   end.
 
-(** ROAs that pass the [limited_scope] test (analyser.rs:145-153). *)
+(** ROAs that pass the [limited_scope] test (analyser.rs:145-151). *)
 Definition considered (roas : list croa) (limit : option resources) : list croa :=
   match limit with
-  | Some l => filter (fun r => contains_roa_address l (r_pl r)) roas
+  | Some l => filter (fun r => is_held_by (r_pl r) l) roas
   | None => roas
   end.
-(** 155-162 *)
+(** 153-158 *)
 Definition roas_held (roas : list croa) (held : resources) (limit : option resources) : list croa :=
-  filter (fun r => contains_roa_address held (r_pl r)) (considered roas limit).
+  filter (fun r => is_held_by (r_pl r) held) (considered roas limit).
 Definition roas_not_held (roas : list croa) (held : resources) (limit : option resources) : list croa :=
-  filter (fun r => negb (contains_roa_address held (r_pl r))) (considered roas limit).
+  filter (fun r => negb (is_held_by (r_pl r) held)) (considered roas limit).
 
 (** 177 *)
 Definition scope_of (held : resources) (limit : option resources) : resources :=
@@ -342,35 +344,102 @@ Definition anns_in (p : state -> bool) (es : list entry) : list ann :=
   flat_map (fun e => if p (e_state e) then match e_subj e with SAnn a => [a] | SRoa _ => [] end else []) es.
 Definition st_is (a b : state) : bool := state_code a =? state_code b.
 
-(** 259-269: announcements this ROA authorises that no *other* entry authorises. *)
-Definition replace_with (entries : list entry) (e : entry) : list payload :=
+(** ** Report order
+
+    [suggest] visits the entries of the report in the order [BgpAnalysisReport::new] gives them (bgp.rs:238-241: a
+    stable sort); since the repair of F17e the replacement lists depend on that order. [Ord for BgpAnalysisEntry]
+    (bgp.rs:922-931): state (declaration order = [state_code]), then [as_payload] (954-972) compared by
+    [Ord for RoaPayload] (roa.rs:192-208): prefix - [TypedPrefix::cmp] (772-780) compares the rpki [Addr], i.e. the
+    128-bit view, then the length - then effective maximum length, then origin. *)
+Definition subject_payload (s : subject) : payload :=
+  match s with SRoa r => r_pl r | SAnn a => mkPl (a_asn a) (a_pfx a) None end.
+Definition entry_key (e : entry) : list N :=
+  let pl := subject_payload (e_subj e) in
+  [state_code (e_state e); addr128 (pl_pfx pl); p_len (pl_pfx pl); eff_max pl; pl_asn pl].
+Fixpoint key_leb (a b : list N) : bool :=
+  match a, b with
+  | [], _ => true
+  | _ :: _, [] => false
+  | x :: a', y :: b' => if x <? y then true else if y <? x then false else key_leb a' b'
+  end.
+Definition entry_leb (a b : entry) : bool := key_leb (entry_key a) (entry_key b).
+(** Stable insertion sort ([fold_right] inserts the earlier element later, in front of its equals). *)
+Fixpoint entry_insert (e : entry) (l : list entry) : list entry :=
+  match l with [] => [e] | x :: r => if entry_leb e x then e :: l else x :: entry_insert e r end.
+Definition report_sort (l : list entry) : list entry := fold_right entry_insert [] l.
+
+(** ** Replacements for a too permissive ROA (analyser.rs:254-284, as repaired by 992adfab)
+
+    Announcements this ROA authorises, except those that stay authorised without it: by another entry in state
+    [RoaSeen] (a ROA that is kept), or by a replacement already suggested for an earlier too permissive ROA. *)
+Definition kept_elsewhere (entries : list entry) (e : entry) (a : ann) : bool :=
+  existsb (fun other => negb (entry_eqb other e) && st_is RoaSeen (e_state other)
+                        && existsb (ann_eqb a) (e_authorizes other)) entries.
+Definition already_suggested (acc : list (croa * list payload)) (pl : payload) : bool :=
+  existsb (fun x => existsb (payload_eqb pl) (snd x)) acc.
+Definition replace_with (entries : list entry) (acc : list (croa * list payload)) (e : entry) : list payload :=
+  filter (fun pl => negb (already_suggested acc pl))
+         (map payload_of_ann (filter (fun a => negb (kept_elsewhere entries e a)) (e_authorizes e))).
+
+(** The [too_permissive] list as the loop builds it ([acc] = what has been pushed so far). *)
+Fixpoint too_permissive_loop (entries todo : list entry) (acc : list (croa * list payload)) : list (croa * list payload) :=
+  match todo with
+  | [] => acc
+  | e :: rest =>
+      if st_is RoaTooPermissive (e_state e)
+      then match e_subj e with
+           | SRoa r => too_permissive_loop entries rest (acc ++ [(r, replace_with entries acc e)])
+           | SAnn _ => too_permissive_loop entries rest acc
+           end
+      else too_permissive_loop entries rest acc
+  end.
+
+(** The code before 992adfab (pinned as a regression witness for F17e): every announcement that *any* other entry
+    authorises was left out, also when that entry's ROA is itself suggested for removal. *)
+Definition replace_with_pinned (entries : list entry) (e : entry) : list payload :=
   map payload_of_ann
       (filter (fun a => negb (existsb (fun other => negb (entry_eqb other e)
                                                     && existsb (ann_eqb a) (e_authorizes other)) entries))
               (e_authorizes e)).
+Definition too_permissive_pinned (entries : list entry) : list (croa * list payload) :=
+  flat_map (fun e => if st_is RoaTooPermissive (e_state e)
+                     then match e_subj e with SRoa r => [(r, replace_with_pinned entries e)] | SAnn _ => [] end
+                     else []) entries.
 
+Definition suggestion_with (tp : list (croa * list payload)) (entries : list entry) : suggestion :=
+  mkSug
+    (roas_in (st_is RoaUnseen) entries)                                            (* 251-253 stale *)
+    (anns_in (st_is AnnNotFound) entries)                                          (* 303-305 *)
+    (anns_in (st_is AnnInvalidAsn) entries)                                        (* 306-308 *)
+    (anns_in (st_is AnnInvalidLength) entries)                                     (* 309-311 *)
+    tp                                                                             (* 254-284 *)
+    (roas_in (st_is RoaDisallowing) entries)                                       (* 288-290 *)
+    (roas_in (st_is RoaRedundant) entries)                                         (* 291-293 *)
+    (roas_in (st_is RoaNotHeld) entries)                                           (* 294-296 *)
+    (roas_in (st_is RoaAs0Redundant) entries)                                      (* 297-301 *)
+    (roas_in (fun s => st_is RoaSeen s || st_is RoaAs0 s || st_is RoaNoInfo s) entries)   (* 285-287, 315-317 keep *)
+    (anns_in (st_is AnnDisallowed) entries).                                       (* 312-314 *)
+
+(** [entries]: the report, in report order. *)
 Definition suggest_of_entries (entries : list entry) : option suggestion :=
-  if forallb kind_consistent entries then
-    Some (mkSug
-      (roas_in (st_is RoaUnseen) entries)                                            (* 255-257 stale *)
-      (anns_in (st_is AnnNotFound) entries)                                          (* 296-298 *)
-      (anns_in (st_is AnnInvalidAsn) entries)                                        (* 299-301 *)
-      (anns_in (st_is AnnInvalidLength) entries)                                     (* 302-304 *)
-      (flat_map (fun e => if st_is RoaTooPermissive (e_state e)
-                          then match e_subj e with SRoa r => [(r, replace_with entries e)] | SAnn _ => [] end
-                          else []) entries)                                          (* 258-277 *)
-      (roas_in (st_is RoaDisallowing) entries)                                       (* 281-283 *)
-      (roas_in (st_is RoaRedundant) entries)                                         (* 284-286 *)
-      (roas_in (st_is RoaNotHeld) entries)                                           (* 287-289 *)
-      (roas_in (st_is RoaAs0Redundant) entries)                                      (* 290-294 *)
-      (roas_in (fun s => st_is RoaSeen s || st_is RoaAs0 s || st_is RoaNoInfo s) entries)   (* 278-280, 308-310 keep *)
-      (anns_in (st_is AnnDisallowed) entries))                                       (* 305-307 *)
+  if forallb kind_consistent entries
+  then Some (suggestion_with (too_permissive_loop entries entries []) entries)
+  else None.
+Definition suggest_of_entries_pinned (entries : list entry) : option suggestion :=
+  if forallb kind_consistent entries
+  then Some (suggestion_with (too_permissive_pinned entries) entries)
   else None.
 
 Definition suggest (chk : bool) (roas : list croa) (held : resources) (limit : option resources)
            (seen : option (list ann)) : option suggestion :=
   match analyse chk roas held limit seen with
-  | Some entries => suggest_of_entries entries
+  | Some entries => suggest_of_entries (report_sort entries)
+  | None => None
+  end.
+Definition suggest_pinned (chk : bool) (roas : list croa) (held : resources) (limit : option resources)
+           (seen : option (list ann)) : option suggestion :=
+  match analyse chk roas held limit seen with
+  | Some entries => suggest_of_entries_pinned (report_sort entries)
   | None => None
   end.
 
